@@ -9,7 +9,8 @@
    Line kinds (field `kind`):
      direct dump   entity reventity colourname colourhex tagtrait attrtrait zerounit jsmime
                    svgcolourattr hash            (+ refcolour: self-test of Tables.CssColours)
-     probes        tagprobe rawprobe attrprobe unitprobe colourprobe svgattrprobe entprobe
+     probes        tagprobe rawprobe attrprobe unitprobe colourprobe svgattrprobe entprobe revprobe
+     notes         tablenote (an entry of a source-read map the driver could not evaluate; no clause, reported)
    Every invariant has the form  l <= N => (kind # k \/ Holds(Trace[l]) \/ Reject(l, clause)). *)
 EXTENDS TableText, TraceIO
 
@@ -20,6 +21,8 @@ EXTENDS TableText, TraceIO
      EntityOK/text      EntityOK: replacement does not decode to the reference's text (text)
      EntityOK/markup    EntityOK: literal markup character as replacement in text
      EntityOK/rev       EntityOK: reverse entry does not decode to the character it replaces
+     RevProbe/text      EntityOK(probe): numeric reference to a reverse-mapped character decodes differently
+     RevProbe/raw       EntityOK(probe): a character XML does not allow written literally
      EntProbe/parse     EntityOK(probe): output no longer parses
      EntProbe/text      EntityOK(probe): decoded text differs
      EntProbe/attr      EntityOK(probe): decoded attribute value differs
@@ -111,9 +114,27 @@ EntityOK == IsKind("entity") =>
         \/ Reject(l, "EntityOK/markup"))
 
 (* TextRevEntitiesMap: byte -> reference written instead of it; same clause, other direction *)
+(* An entry may also map a character to a numeric reference to exactly that code point even where the
+   language does not allow the character at all (xml: U+0000 -> &#0;, "never decode to a NUL byte"): a
+   document that referenced the code point keeps referencing the same code point - the identity, which is
+   meaning-preserving also on ill-formed input - whereas the literal byte would be a different document. *)
+RevNumericSelf(r, ch) ==
+  \/ (IsDecRef(r.b) /\ DecValue(SubSeq(r.b, 3, Len(r.b) - 1)) = ch)
+  \/ (IsHexRef(r.b) /\ HexValue(SubSeq(r.b, 4, Len(r.b) - 1)) = ch)
 RevEntityOK == IsKind("reventity") =>
-  (SameText(DecodeRepl(E.r, E.table), <<E.ch>>) /\ DecodeRepl(E.r, E.table) # Mixed)
-     \/ Reject(l, "EntityOK/rev")
+  \/ RevNumericSelf(E.r, E.ch)
+  \/ (SameText(DecodeRepl(E.r, E.table), <<E.ch>>) /\ DecodeRepl(E.r, E.table) # Mixed)
+  \/ Reject(l, "EntityOK/rev")
+(* probe <a>1&#N;2</a> for every character N of the text reverse map and <a b="1&#N;2"/> for every character of the
+   attribute reverse map, through the XML minifier (the context the entry is used in; what happens to a
+   character without an entry is not a table question):
+   where the input is well-formed, the text and the attribute value an independent parser (encoding/xml)
+   sees are unchanged; and a character that XML does not allow (U+0000, ...) never appears literally in the
+   output unless it was literally in the input *)
+CountOf(s, c) == Cardinality({i \in 1..Len(s) : s[i] = c})
+RevProbeOK == IsKind("revprobe") =>
+  /\ (E.inok => (E.outok /\ E.intext = E.outtext /\ E.inattr = E.outattr) \/ Reject(l, "RevProbe/text"))
+  /\ ((~XmlCharOK(E.ch) /\ E.ch < 128) => (CountOf(E.outb, E.ch) <= CountOf(E.inb, E.ch) \/ Reject(l, "RevProbe/raw")))
 
 (* through the public minifier: the text (and the attribute value) an independent parser
    (golang.org/x/net/html, encoding/xml) sees is the same before and after minification *)
